@@ -17,6 +17,8 @@ func main() {
 	dts := flag.String("dt", "", "restrict to one datatype")
 	outPath := flag.String("out", "", "trace output (JSON lines: command fields + obs)")
 	statsPath := flag.String("stats", "", "generator distribution output (JSON)")
+	from := flag.Int("from", 0, "first case index to run (service-level slices restart after a crash)")
+	appendOut := flag.Bool("append", false, "append to the trace instead of truncating it")
 	replay := flag.String("replay", "", "re-execute the commands of a trace file on the implementation")
 	flag.Parse()
 	realStderr := os.Stderr
@@ -25,7 +27,11 @@ func main() {
 	var f *os.File = os.Stdout
 	if *outPath != "" {
 		var err error
-		f, err = os.Create(*outPath)
+		if *appendOut {
+			f, err = os.OpenFile(*outPath, os.O_APPEND|os.O_WRONLY|os.O_CREATE, 0644)
+		} else {
+			f, err = os.Create(*outPath)
+		}
 		if err != nil {
 			fmt.Fprintln(realStderr, err)
 			os.Exit(2)
@@ -46,6 +52,7 @@ func main() {
 		}
 		bw.Write(b)
 		bw.WriteByte('\n')
+		bw.Flush()
 	}
 	if *replay != "" {
 		replayTrace(*replay, out)
@@ -53,6 +60,9 @@ func main() {
 	}
 	p, ok := profiles[*prof]
 	if !ok {
+		if runService(*prof, *seed, *cases, *from, out, *statsPath) {
+			return
+		}
 		if runSpecial(*prof, *seed, *cases, out, *statsPath) {
 			return
 		}
